@@ -544,7 +544,159 @@ def run_config(cfg, max_seconds):
     return res
 
 
+# ------------------------------------------------------------------ owner-side threads (the table is shared by them)
+_watched = [False]
+
+
+def watch_table_lines():
+    if _watched[0]:
+        return
+    from mc import trace
+    from rpyc.lib import colls
+    from rpyc.core.protocol import Connection
+    C = colls.RefCountingColl
+    trace.watch([C.add, C.decref, C.__getitem__, C.clear, Connection._box, Connection._handle_del])
+    _watched[0] = True
+
+
+def table_race_run(variant):
+    """two threads of the OWNER use the connection at once: 'resend-vs-release' - one sends object X again while the other
+    serves the peer's release notice for the last proxy of X; 'resend-vs-resend' - both send X (first time lent).
+    Afterwards the peer's reference must work, and once it is dropped the table must let go of X."""
+    from mc import explore   # noqa
+
+    def run(choices, want_state, cut_fn):
+        gc.disable()
+        osvc, psvc = OwnerService(), PeerService()
+        w = pair.World(osvc, psvc)
+        box = {}
+        X = [7]
+
+        def main():
+            sch = S.current_sched()
+            sch.armed = False
+            c, s = w.cconn, w.sconn
+
+            def with_peer(fn, other):
+                """run fn in a thread of one side while this thread serves the other side"""
+                out = {}
+
+                def body():
+                    try:
+                        out["v"] = fn()
+                    except Exception as ex:   # noqa
+                        out["e"] = ex
+                t = S.SimThread(target=body, name="setup")
+                t.start()
+                for _ in range(200):
+                    if not t.is_alive():
+                        break
+                    other.serve(0.05)
+                t.join(5)
+                if "e" in out:
+                    raise out["e"]
+                return out.get("v")
+
+            proot = with_peer(lambda: c.root, s)
+            take = with_peer(lambda: proot.take, s)
+            a_take = _rpyc.async_(take)
+            if variant == "resend-vs-release":
+                with_peer(lambda: take(X), s)
+                del psvc.held[:]                 # the peer drops its only proxy: the release notice waits in O's inbox
+            res = []
+            ts = [S.SimThread(target=lambda: res.append(a_take(X)), name="sender")]
+            if variant == "resend-vs-release":
+                ts.append(S.SimThread(target=lambda: c.serve(0), name="server-of-release"))
+            else:
+                ts.append(S.SimThread(target=lambda: res.append(a_take(X)), name="sender2"))
+            sch.armed = True
+            for t in ts:
+                t.start()
+            for t in ts:
+                t.join(50)
+            sch.armed = False
+            box["thread_exc"] = [repr(t.lt.exc) for t in ts if getattr(t, "lt", None) is not None and t.lt.exc is not None]
+            # the peer processes what was sent; the owner whatever is still waiting
+            for _ in range(4):
+                s.serve(0.05)
+                c.serve(0.05)
+            held = list(psvc.held)
+            box["held"] = len(held)
+            use = []
+            for p in held:
+                try:
+                    use.append(with_peer(lambda: p[0], c))
+                except Exception as ex:    # noqa
+                    use.append("raised:" + type(ex).__name__)
+            box["use"] = use
+            idp = [k for k in c._local_objects._dict if k[2] == id(X)]
+            box["in_table_while_held"] = bool(idp)
+            del held[:]
+            p = None
+            del psvc.held[:]
+            del res[:]
+            for _ in range(4):
+                c.serve(0.05)
+                s.serve(0.05)
+            box["in_table_after_drop"] = any(k[2] == id(X) for k in c._local_objects._dict)
+            box["done"] = True
+
+        def state_fn(sc):
+            return canon.state_key(sc, [w.cconn, w.a, w.b], canon.DEFAULT_PREFIXES)
+
+        sch = S.Scheduler(choices, state_fn=state_fn if want_state else None, cut_fn=cut_fn, sync_points=True, io_points=True,
+                          horizon=1000, max_steps=100000)
+        sch.run(main)
+        if sch.outcome == "cut":
+            w.shutdown()
+            return sch, {"violations": [], "outcome_key": None}
+        viol = []
+        if sch.outcome != "done" or not box.get("done"):
+            viol.append(("table-race:%s:scheduler:%s" % (variant, sch.outcome), repr(sch.deadlock_info) + repr(sch.threads[0].exc)))
+        else:
+            want = 1 if variant == "resend-vs-release" else 2
+            if box["thread_exc"]:
+                viol.append(("table-race:%s:owner-thread-raised" % variant, repr(box["thread_exc"])))
+            if box["held"] != want:
+                viol.append(("table-race:%s:peer-holds-%d-references" % (variant, box["held"]), "expected %d" % want))
+            if any(u != 7 for u in box["use"]):
+                viol.append(("table-race:%s:live-proxy-unusable" % variant, repr(box["use"])))
+            if not box["in_table_while_held"]:
+                viol.append(("table-race:%s:object-missing-from-table-while-peer-holds-it" % variant, ""))
+            if box["in_table_after_drop"]:
+                viol.append(("table-race:%s:leak-at-quiescence" % variant, ""))
+        ok = (sch.outcome, box.get("held"), tuple(box.get("use", ())), box.get("in_table_while_held"), box.get("in_table_after_drop"))
+        w.shutdown()
+        return sch, {"violations": viol, "outcome_key": ok}
+    return run
+
+
+def explore_table_race(res, tier):
+    from mc import explore
+    watch_table_lines()
+    for variant in ("resend-vs-release", "resend-vs-resend"):
+        ex = explore.ParallelExplorer(table_race_run(variant), bound=2 if tier == "quick" else 3, max_seconds=150 if tier == "quick" else 1500,
+                                      stop_on_violation=True)
+        ex.explore()
+        name = "owner-threads/%s" % variant
+        res.add_explorer(name, ex)
+        res.bounds[name] = "preemptions<=%s" % ex.stats.bound_completed
+        if ex.violations:
+            return
+
+
 def replay(rep):
+    if rep.get("part", "").startswith("owner-threads/"):
+        env.silence_unraisable()
+        watch_table_lines()
+        variant = rep["part"].split("/")[1]
+        a = table_race_run(variant)(rep["choices"], False, None)[1]["violations"]
+        b = table_race_run(variant)(rep["choices"], False, None)[1]["violations"]
+        if [x[0] for x in a] != [x[0] for x in b]:
+            print("REPLAY-DIVERGENCE", a, b)
+            return 2
+        print("replayed -> %r" % (a[:3],))
+        return 1 if a else 0
     cfg = [c for c in CONFIGS["quick"] + CONFIGS["thorough"] if c[0] == rep["part"]][0]
     name, kind, nobj, ms, mb, ss, depth = cfg
     set_shapes(name)
@@ -589,6 +741,9 @@ def main(tier, replay_obj=None):
             res.violation(sig, text, {"part": cfg[0], "history": hist})
         if r.violations:
             break
+    if not res.violations:
+        env.silence_unraisable()
+        explore_table_race(res, tier)
     res.assumptions = [
         "each side processes its incoming frames in FIFO order; delivery of the two directions is interleaved arbitrarily",
         "sequence numbers are dropped from the canonical state (opaque correlation tokens; futures are isomorphic under renaming)",
